@@ -17,25 +17,25 @@ theorem cvOne_empty {w : World} {c : TCtl} {vi : Nat} {s : CondvarSt}
   rw [runOp_cvOne]
   simp [hs, getCv_of h, hw, bind, Except.bind, pure, Except.pure]
 
-/-- the FIRST waiter is removed and unparked; the rest of the queue keeps its order -/
+/-- the FIRST waiter is removed and woken (`Set::wake`, not `unpark`); the rest of the queue keeps its order -/
 theorem cvOne_first {w : World} {c : TCtl} {vi t : Nat} {rest : List Nat} {s : CondvarSt}
     (h : w.exec.objs[w.cvObj vi]? = some (.condvar s)) (hs : c.stage ≠ 0)
     (hw : s.waiters = t :: rest) :
     w.runOp c (.cvOne vi) = .ok
       (((w.setObj (w.cvObj vi) (.condvar { s with waiters := rest })).setThs
-        (w.ths.unpark t)).complete .unit) := by
+        (w.ths.wake t)).complete .unit) := by
   rw [runOp_cvOne]
   simp only [hs, getCv_of h, hw, bind, Except.bind, pure, Except.pure, beq_iff_eq, if_false]
   rfl
 
 /-! ### `notify_all` -/
 
-/-- the queue is drained; the former waiters are unparked one after the other in queue order -/
+/-- the queue is drained; the former waiters are woken one after the other in queue order -/
 theorem cvAll_eq {w : World} {c : TCtl} {vi : Nat} {s : CondvarSt}
     (h : w.exec.objs[w.cvObj vi]? = some (.condvar s)) (hs : c.stage ≠ 0) :
     w.runOp c (.cvAll vi) = .ok
       (((w.setObj (w.cvObj vi) (.condvar { s with waiters := [] })).setThs
-        (s.waiters.foldl (fun ths t => ths.unpark t) w.ths)).complete .unit) := by
+        (s.waiters.foldl (fun ths t => ths.wake t) w.ths)).complete .unit) := by
   rw [runOp_cvAll]
   simp only [hs, getCv_of h, bind, Except.bind, pure, Except.pure, beq_iff_eq, if_false]
   rfl
@@ -54,44 +54,71 @@ theorem unpark_activeT {s : Threads} {id : Nat} (h : id ≠ s.activeId) :
   rw [unpark_activeId, unpark_other h]
   exact get_modify_ne _ _ _ _ (fun e => h e.symm)
 
-/-- every former waiter (none of them the notifier, no duplicates in the queue) has been unparked
-exactly once by the notifier; all other threads are unchanged -/
-theorem foldl_unpark (l : List Nat) (s : Threads) (hnd : l.Nodup) (hact : s.activeId ∉ l) :
-    (∀ t, t ∈ l → t < s.threads.length →
-      (l.foldl (fun ths t => ths.unpark t) s).get t = (s.get t).unpark s.activeT) ∧
-    (∀ j, j ∉ l → (l.foldl (fun ths t => ths.unpark t) s).get j = s.get j) := by
+theorem wake_length (s : Threads) (id : Nat) : (s.wake id).threads.length = s.threads.length := by
+  unfold Threads.wake
+  split <;> simp [Threads.modify]
+
+theorem wake_activeId (s : Threads) (id : Nat) : (s.wake id).activeId = s.activeId := by
+  unfold Threads.wake
+  split <;> rfl
+
+theorem wake_active (s : Threads) (id : Nat) : (s.wake id).active = s.active := by
+  unfold Threads.wake
+  split <;> rfl
+
+theorem wake_activeT (s : Threads) (id : Nat) : (s.wake id).activeT = s.activeT := by
+  by_cases h : id = s.activeId
+  · rw [h, wake_self]
+  · unfold Threads.activeT
+    rw [wake_activeId, wake_other h]
+    exact get_modify_ne _ _ _ _ (fun e => h e.symm)
+
+/-- every former waiter other than the notifier (no duplicates in the queue) has been woken exactly once by the
+notifier; all other threads — the notifier itself included, even if it is in the queue — are unchanged -/
+theorem foldl_wake (l : List Nat) (s : Threads) (hnd : l.Nodup) :
+    (∀ t, t ∈ l → t ≠ s.activeId → t < s.threads.length →
+      (l.foldl (fun ths t => ths.wake t) s).get t = (s.get t).wakeFrom s.activeT) ∧
+    (∀ j, j ∉ l ∨ j = s.activeId → (l.foldl (fun ths t => ths.wake t) s).get j = s.get j) := by
   induction l generalizing s with
-  | nil => exact ⟨fun t ht _ => (by cases ht), fun j _ => rfl⟩
+  | nil => exact ⟨fun t ht _ _ => (by cases ht), fun j _ => rfl⟩
   | cons a l ih =>
     rw [List.nodup_cons] at hnd
-    have ha : a ≠ s.activeId := fun e => hact (by rw [e]; exact List.mem_cons_self)
-    have hact' : (s.unpark a).activeId ∉ l := by
-      rw [unpark_activeId]; exact fun hm => hact (List.mem_cons_of_mem _ hm)
-    obtain ⟨ih1, ih2⟩ := ih (s.unpark a) hnd.2 hact'
+    obtain ⟨ih1, ih2⟩ := ih (s.wake a) hnd.2
     simp only [List.foldl_cons]
     constructor
-    · intro t ht hin
+    · intro t ht hta hin
       rcases List.mem_cons.1 ht with rfl | ht
-      · rw [ih2 t hnd.1]
-        exact (unpark_other_get ha hin).1
-      · have hta : t ≠ a := fun e => hnd.1 (e ▸ ht)
-        rw [ih1 t ht (by rw [unpark_length]; exact hin), unpark_activeT ha]
-        rw [unpark_other ha, get_modify_ne _ _ _ _ hta]
+      · rw [ih2 t (.inl hnd.1)]
+        exact (wake_other_get hta hin).1
+      · have hne : t ≠ a := fun e => hnd.1 (e ▸ ht)
+        rw [ih1 t ht (by rw [wake_activeId]; exact hta) (by rw [wake_length]; exact hin), wake_activeT]
+        by_cases ha : a = s.activeId
+        · rw [ha, wake_self]
+        · rw [wake_other ha, get_modify_ne _ _ _ _ hne]
     · intro j hj
-      have hja : j ≠ a := fun e => hj (by rw [e]; exact List.mem_cons_self)
-      rw [ih2 j (fun hm => hj (List.mem_cons_of_mem _ hm))]
-      rw [unpark_other ha, get_modify_ne _ _ _ _ hja]
+      rw [ih2 j (by
+        rcases hj with hj | hj
+        · exact .inl (fun hm => hj (List.mem_cons_of_mem _ hm))
+        · exact .inr (by rw [wake_activeId]; exact hj))]
+      by_cases ha : a = s.activeId
+      · rw [ha, wake_self]
+      · rw [wake_other ha]
+        apply get_modify_ne
+        rcases hj with hj | hj
+        · exact fun e => hj (by rw [e]; exact List.mem_cons_self)
+        · rw [hj]; exact fun e => ha e.symm
 
 /-! ### `wait` -/
 
 /-- stage 1 of `wait`: the caller is appended at the END of the queue, the mutex is released
-(`release_lock`), then the caller parks -/
+(`release_lock`), then the caller blocks itself with `rt::block` (NOT `rt::park`: the unpark token is not
+looked at) -/
 theorem cvWait_stage1 {w : World} {c : TCtl} {vi mi : Nat} {s : CondvarSt}
     (h : w.exec.objs[w.cvObj vi]? = some (.condvar s)) (hs : c.stage = 1) :
     w.runOp c (.cvWait vi mi) = (do
       let w2 ← (w.setObj (w.cvObj vi)
         (.condvar { s with waiters := s.waiters ++ [w.tid] })).releaseLock (w.mutexObj mi)
-      (w2.setStage 2).parkNow) := by
+      (w2.setStage 2).blockNow) := by
   rw [runOp_cvWait, hs]
   simp only [getCv_of h, bind, Except.bind]
 
@@ -99,7 +126,7 @@ theorem cvWait_stage1 {w : World} {c : TCtl} {vi mi : Nat} {s : CondvarSt}
 theorem cvWait_stage2 {w : World} {c : TCtl} {vi mi : Nat} {m : MutexSt}
     (h : w.exec.objs[w.mutexObj mi]? = some (.mutex m)) (hs : c.stage = 2) :
     w.runOp c (.cvWait vi mi) =
-      (w.setStage 3).branch (w.mutexObj mi) .opaque (block := m.lock.isSome) := by
+      (w.setStage 3).branch (w.mutexObj mi) .opaque (block := m.lock.isSome) (wait := true) := by
   rw [runOp_cvWait, hs]
   simp only [getMutex_of h, bind, Except.bind]
 
@@ -170,7 +197,7 @@ theorem cvWait_completes_only_locked {w w' : World} {c : TCtl} {vi mi : Nat} {m 
         split at hr
         · cases hr
         · next w2 h2 =>
-          obtain ⟨e, rfl⟩ := parkNow_rest hr
+          obtain ⟨e, rfl⟩ := blockNow_rest hr
           have hc := releaseLock_ctl h2
           show ((w2.setStage 2).ctlOf w.tid).pc = _
           rw [pc_setStage]
